@@ -160,7 +160,8 @@ def value(draw, ai, sep):
         enc = str(dp) + pre + digs
         return enc, ((pre, val) if pre else val)
     if typ == 'date':
-        y = draw(st.integers(2000, 2049))
+        # two-digit years follow the POSIX pivot the library inherits from strptime('%y'): 69-99 -> 19xx, 00-68 -> 20xx
+        y = draw(st.one_of(st.integers(2000, 2049), st.integers(1969, 2068), st.sampled_from([1969, 1999, 2000, 2068])))
         mth = draw(st.integers(1, 12))
         d = datetime.date(y, mth, draw(st.integers(1, last_day(y, mth).day)))
         if fmt == 'N6':
@@ -170,7 +171,7 @@ def value(draw, ai, sep):
         if fmt in ('N6[+N6]', 'N6..12'):
             if draw(st.booleans()):
                 return d.strftime('%y%m%d'), d
-            d2 = d + datetime.timedelta(days=draw(st.integers(0, 400)))
+            d2 = min(d + datetime.timedelta(days=draw(st.integers(0, 400))), datetime.date(2068, 12, 31))  # window of two-digit years
             e1, e2 = d.strftime('%y%m%d'), d2.strftime('%y%m%d')
             # day 00 = last day of the month, in either half of the pair
             z = draw(st.integers(0, 5))
@@ -290,7 +291,27 @@ def consumer_witness(ai_lo, props):
     fills the registered format completely."""
     m = core.mod('gs1_128')
     if not modelled(ai_lo):
-        return None  # a format the value model does not know (registry newer than the model): no witness can be built
+        # a format / type combination the value model does not know (registry newer than the model): the value cannot be
+        # predicted, but the entry still has to be usable - some plausible text of the registered length must decode and
+        # validate, with and without separator
+        try:
+            L = maxlen(props.get('format', ''), props.get('type'))
+        except Exception:  # noqa: B902
+            return ('consumer:gs1_128-format-not-understood', props.get('format'))
+        cands = [c[:L] for c in ('198007051230', '8007051230', '800705123000', '1' * L, '123456789012345678901234567890') if len(c) >= L]
+        last = None
+        for enc in cands:
+            ok = True
+            for sep in ('', '|'):
+                last = core.out(m.info, ai_lo + enc, sep)
+                v = core.out(m.validate, ai_lo + enc, sep)
+                if last[0] != 'ok' or v[0] != 'ok':
+                    ok = False
+                    last = last if last[0] != 'ok' else v
+                    break
+            if ok:
+                return None
+        return ('consumer:gs1_128-decodes-no-value-of-the-registered-format', (props.get('format'), props.get('type'), last))
     cands = [simple_value(ai_lo), full_value(ai_lo)]
     for enc, val in cands:
         bad = _roundtrip(m, ai_lo, enc, val)
